@@ -17,7 +17,8 @@
       IGNORECASE decision and "the value contains white space";
     * `:first-child` … : `SelectorNth(1, False, 0, of_type, last, empty list)`, two of them for
       the `only-` forms;
-    * the implied `*` (no prefix) is put on the LAST compound of a top-level complex selector only.
+    * the implied `*` (no prefix) is put on every compound of a top-level complex selector that
+      has no type selector, and on none inside pseudo-class arguments.
 
   Mathlib-free and executable.
 -/
@@ -120,7 +121,7 @@ end
 /-- A complex selector as it is compiled INSIDE a pseudo-class (no implied `*`). -/
 def compileComplex (x : Complex) : Sel := compileRT x .none
 
-/-- A top-level complex selector (implied `*` on the last compound). -/
+/-- A top-level complex selector (implied `*` on every compound of the chain). -/
 def compileTop (x : Complex) : Sel := compileComplex x.withImplied
 
 /-- `sv.compile("x₁, x₂, …").selectors`. -/
